@@ -94,8 +94,12 @@ def zstd_crafted_files(rng):
     zstd dictionary magic followed by unusable entropy tables (ZSTD_createDDict fails: the error path of the
     dictionary import after the buffer has been handed to the compression context)"""
     out = []
-    for dict_kind in ("badmagic", "rawcontent", "none", "magic-only"):
+    for dict_kind in ("badmagic", "rawcontent", "none", "magic-only", "none+emptyframe"):
         chunks = [rng.rbytes(rng.choice([20, 300, 1000])) for _ in range(3)]
+        if dict_kind == "none+emptyframe":
+            # a chunk that HAS stored bytes (a valid empty zstd frame) but declares 0 uncompressed bytes, behind a chunk
+            # that has been read completely (a request for 0 more decompressed bytes in the middle of the stream)
+            chunks = [rng.rbytes(1000), b"", rng.rbytes(1000), b""]
         if dict_kind == "badmagic":
             d = b"\x37\xa4\x30\xec" + rng.rbytes(4) + bytes([0xff]) * 40 + rng.rbytes(60)
         elif dict_kind == "magic-only":
